@@ -54,6 +54,7 @@ class Interp(ExprMixin, CallMixin):
         fv = FuncV(fi, env_addr)
         self._stack = []
         self.depth = 0
+        self._entry_qual = fi.qualname
         with self.pinned(list(args), list((kwargs or {}).values())):
             return self.call_function(st, fv, list(args), dict(kwargs or {}), None, None, cls_ctx=cls_ctx or fi.cls)
 
